@@ -186,7 +186,7 @@ def check_inject(case, ref, builders):
 
 def fault_cases():
     """real design faults caught by checking passes, and a generator body raising once"""
-    return [("fault", k) for k in ("width", "missing-port", "orphan", "generator-once", "generator-nested")]
+    return [("fault", k) for k in ("width", "missing-port", "orphan", "generator-once", "generator-nested", "generator-bad-params")]
 
 
 def check_fault(case, ref, builders):
@@ -262,6 +262,39 @@ def check_fault(case, ref, builders):
         m.a = h.Signal()
         m.i = Inner(n=p.n)(a=m.a)
         return m
+    if kind == "generator-bad-params":
+        # a call refused before the body runs (params object of another class) leaves nothing pending: the same refusal
+        # every time, directly and from inside another generator, and valid calls unaffected
+        @h.paramclass
+        class Q:
+            w = h.Param(dtype=int, desc="w", default=1)
+        state["calls"] = 5          # the body itself does not raise here
+        msgs = []
+        for k in range(3):
+            try:
+                Inner(Q(w=3))
+                return (f"{kind}.accepted", "params object of another class accepted", {"case": repr(case)})
+            except Exception as e:
+                msgs.append(f"{type(e).__name__}: {str(e)[:60]}")
+        if len(set(msgs)) != 1 or "ircular" in msgs[-1]:
+            return (f"{kind}.poisoned", f"repeating a refused call reports {msgs}", {"case": repr(case)})
+
+        @h.generator
+        def Calls(p: P) -> h.Module:
+            m = h.Module()
+            try:
+                Inner(Q(w=3))
+            except RuntimeError as e:
+                if "ircular" in str(e):
+                    raise
+            m.a = h.Signal()
+            m.i = Inner(n=p.n)(a=m.a)
+            return m
+        try:
+            h.to_proto(Calls(n=4))
+        except Exception as e:
+            return (f"{kind}.poisoned", f"after a refused call: {type(e).__name__}: {str(e)[:100]}", {"case": repr(case)})
+        return None
     G = Inner if kind == "generator-once" else Outer
     try:
         G(n=3)
